@@ -1,4 +1,4 @@
 # sourced by every /verif script: pins the Go toolchain that can load /repo offline
 export PATH=/opt/veriftools/go1.26.8/bin:$PATH
-export GOFLAGS=-mod=mod GOPROXY=off GOSUMDB=off GOTOOLCHAIN=local CARGO_NET_OFFLINE=true
+export GOFLAGS="-mod=mod -trimpath" GOPROXY=off GOSUMDB=off GOTOOLCHAIN=local CARGO_NET_OFFLINE=true
 unset GOWORK
